@@ -766,23 +766,32 @@ func ruleOpt(c *Ctx) {
 		}
 		c.site(1)
 		setV, setU := false, false
+		// on every path: a setting that is written again must be emitted again, even when its value did not change
+		everyPath := func(st *ssa.Store) bool {
+			for _, r := range returnsOf(fn) {
+				if !dominatesInstr(st, r) {
+					return false
+				}
+			}
+			return true
+		}
 		allInstrs(fn, func(in ssa.Instruction) {
 			if st, ok := in.(*ssa.Store); ok {
 				if n, _, ok := fieldName(st.Addr); ok {
 					if n == "value" {
-						if _, isParam := st.Val.(*ssa.Parameter); isParam {
+						if _, isParam := st.Val.(*ssa.Parameter); isParam && everyPath(st) {
 							setV = true
 						}
 					}
 					if n == "updated" {
-						if b, ok := constBool(st.Val); ok && b {
+						if b, ok := constBool(st.Val); ok && b && everyPath(st) {
 							setU = true
 						}
 					}
 				}
 			}
 		})
-		c.check(setV && setU, fname(fn), c.pos(fn.Pos()), fname(fn), "stores the value and raises the flag", fname(fn)+" no longer stores the value and sets `updated`: the setting is never (re-)emitted")
+		c.check(setV && setU, fname(fn), c.pos(fn.Pos()), fname(fn), "stores the value and raises the flag on every path", fname(fn)+" does not store the value and set `updated` on every path: a setting (or a text / lyric / marker) that is written again with the same value is not emitted again")
 	}
 	if fn := c.fn("util", "Opt.Unwrap"); fn != nil {
 		c.site(1)
